@@ -1,6 +1,7 @@
 package main
 
 import (
+	"bytes"
 	"crypto/aes"
 	"encoding/json"
 	"math/big"
@@ -316,7 +317,13 @@ func execOp(line string) (res string) {
 		}
 		priv := &bec.PrivateKey{D: Nn(0)}
 		priv.Curve = curve
-		out, err := bec.Decrypt(priv, B(1))
+		ctBuf := B(1)
+		out, err := bec.Decrypt(priv, ctBuf)
+		// a second call on the SAME buffer must give the same answer
+		out2, err2 := bec.Decrypt(priv, ctBuf)
+		if (err == nil) != (err2 == nil) || !bytes.Equal(out, out2) {
+			return "unstable"
+		}
 		if err != nil {
 			return "err"
 		}
@@ -350,7 +357,12 @@ func execOp(line string) (res string) {
 		if err != nil {
 			return bad
 		}
-		out, err := crypto.Decrypt(blk, B(1))
+		ctBuf := B(1)
+		out, err := crypto.Decrypt(blk, ctBuf)
+		out2, err2 := crypto.Decrypt(blk, ctBuf)
+		if (err == nil) != (err2 == nil) || !bytes.Equal(out, out2) {
+			return "unstable"
+		}
 		if err != nil {
 			return "err"
 		}
@@ -373,6 +385,35 @@ func execOp(line string) (res string) {
 			return "err"
 		}
 		return "ok " + hx(seed)
+	case "bip39.seq":
+		// one entropy, several passphrases in a row through both entry points (state kept between calls would show)
+		if !argc(2) {
+			return bad
+		}
+		ent := B(0)
+		out := "ok"
+		var sentence string
+		for i, ph := range strings.Split(a[1], ",") {
+			pb, ok := unhex(ph)
+			if !ok {
+				return bad
+			}
+			if i%2 == 0 || sentence == "" {
+				m, seed, err := bip39.Mnemonic(ent, string(pb))
+				if err != nil {
+					return "err"
+				}
+				sentence = m
+				out += " " + hx(seed)
+			} else {
+				seed, err := bip39.MnemonicToSeed(sentence, string(pb))
+				if err != nil {
+					return "err"
+				}
+				out += " " + hx(seed)
+			}
+		}
+		return out
 	case "dpath.fwd":
 		if !argc(1) {
 			return bad
@@ -409,6 +450,47 @@ func execOp(line string) (res string) {
 			return "err"
 		}
 		return "ok " + b2s(v)
+	case "env.seq":
+		// env.seq PAYLOAD SIG PK MIME steps : one JSONEnvelope object; steps: v = IsValid, p:/s:/k:/m:<hex> = set a field
+		if !argc(5) {
+			return bad
+		}
+		sg, pk := string(B(1)), string(B(2))
+		env := &envelope.JSONEnvelope{Payload: string(B(0)), Signature: &sg, PublicKey: &pk, MimeType: string(B(3))}
+		out := "ok"
+		for _, st := range strings.Split(a[4], ",") {
+			if st == "v" {
+				v, err := env.IsValid()
+				if err != nil {
+					out += " e"
+				} else {
+					out += " " + b2s(v)
+				}
+				continue
+			}
+			if len(st) < 3 || st[1] != ':' {
+				return bad
+			}
+			val, ok := unhex(st[2:])
+			if !ok {
+				return bad
+			}
+			switch st[0] {
+			case 'p':
+				env.Payload = string(val)
+			case 's':
+				x := string(val)
+				env.Signature = &x
+			case 'k':
+				x := string(val)
+				env.PublicKey = &x
+			case 'm':
+				env.MimeType = string(val)
+			default:
+				return bad
+			}
+		}
+		return out
 	case "env.new":
 		if !argc(2) {
 			return bad
@@ -503,7 +585,13 @@ func execOp(line string) (res string) {
 		return execXk(a[0], a[1], a[2])
 	}
 	if f, ok := extraOps[op]; ok {
-		return f(a)
+		res := f(a)
+		// the model side appends the verdict of its independent word-level oracle to every field.* answer;
+		// the property's claim is that it always holds
+		if strings.HasPrefix(op, "field.") && op != "field.exact" && op != "field.contract" && strings.HasPrefix(res, "ok") {
+			res += " S=1"
+		}
+		return res
 	}
 	return bad
 }
